@@ -217,3 +217,163 @@ Proof.
 Qed.
 
 End Fmt.
+
+(* ------------------------------------------------------------------ binary32 / binary64 instances *)
+#[local] Instance p24 : Prec_gt_0 24 := eq_refl.
+#[local] Instance p53 : Prec_gt_0 53 := eq_refl.
+Definition rnd32 := round radix2 (FLT_exp (-149) 24) ZnearestE.
+Definition rnd64 := round radix2 (FLT_exp (-1074) 53) ZnearestE.
+Definition R32 (k : Z) : R := (IZR k * bpow radix2 (-149))%R.
+Definition R64 (k : Z) : R := (IZR k * bpow radix2 (-1074))%R.
+Lemma H3a : 3 <= 128. Proof. lia. Qed.
+Lemma H3b : 3 <= 1024. Proof. lia. Qed.
+
+Lemma R32_inj : forall a b, R32 a = R32 b -> a = b.
+Proof. exact (valR_inj 24 128). Qed.
+Lemma R32_lt : forall a b, (R32 a < R32 b)%R <-> a < b.
+Proof. exact (valR_lt 24 128). Qed.
+Lemma R64_le : forall a b, (R64 a <= R64 b)%R <-> a <= b.
+Proof. exact (valR_le 53 1024). Qed.
+
+Lemma f32div_fl_correct : forall c n, 0 <= c <= 2 ^ 24 -> 0 < n <= 2 ^ 24 ->
+  R32 (f32div_fl c n) = rnd32 (IZR c / IZR n).
+Proof. intros c n Hc Hn. exact (fdiv_correct 24 128 eq_refl eq_refl H3a c n Hc Hn). Qed.
+
+Lemma f64div_fl_correct : forall c n, 0 <= c <= 2 ^ 53 -> 0 < n <= 2 ^ 53 ->
+  R64 (f64div_fl c n) = rnd64 (IZR c / IZR n).
+Proof. intros c n Hc Hn. exact (fdiv_correct 53 1024 eq_refl eq_refl H3b c n Hc Hn). Qed.
+
+Lemma R64_one : R64 one64_fl = 1%R.
+Proof.
+  unfold R64, one64_fl. rewrite Z.shiftl_mul_pow2 by lia. rewrite Z.mul_1_l.
+  change 2 with (radix_val radix2). rewrite (IZR_Zpower radix2) by lia. rewrite <- bpow_plus. reflexivity.
+Qed.
+
+(* conversion of a float64 in [0, 2^24] to float32 *)
+Lemma f64to32_fl_correct : forall x, 0 <= x -> (R64 x <= bpow radix2 24)%R ->
+  R32 (f64to32_fl x) = rnd32 (R64 x).
+Proof.
+  intros x Hx Hb. unfold f64to32_fl. change (R32 ?k) with (valR 24 128 k). rewrite key_B2R.
+  generalize (binary_normalize_correct 24 128 eq_refl eq_refl mode_NE x (-1074) false). simpl round_mode.
+  assert (HF : F2R (Float radix2 x (-1074)) = R64 x) by reflexivity.
+  cbv zeta. rewrite HF.
+  assert (H0 : (0 <= R64 x)%R).
+  { unfold R64. apply Rmult_le_pos; [apply IZR_le; lia | apply Rlt_le, bpow_gt_0]. }
+  rewrite Rlt_bool_true; [intros (H1 & _); exact H1|].
+  rewrite Rabs_pos_eq by (apply (rnd_ge0 24 128 eq_refl); exact H0).
+  apply Rle_lt_trans with (bpow radix2 24); [|apply bpow_lt; lia].
+  apply (rnd_le_fmt 24 128 eq_refl); [|exact Hb].
+  apply generic_format_bpow. unfold SpecFloat.fexp, SpecFloat.emin. lia.
+Qed.
+
+Lemma int_f32 : forall c : Z, Z.abs c <= 2 ^ 24 -> FLT_format radix2 (-149) 24 (IZR c).
+Proof.
+  intros c Hc. apply FLT_format_generic; [reflexivity|]. exact (int_format 24 128 eq_refl H3a c Hc).
+Qed.
+
+(* ported from design_spikes/flocq_double_rounding.v *)
+Lemma freq_double_round : forall c n : Z, 0 < n <= 2 ^ 24 -> 0 <= c <= 2 ^ 24 ->
+  rnd32 (rnd64 (IZR c / IZR n)) = rnd32 (IZR c / IZR n).
+Proof.
+  intros c n Hn Hc. unfold rnd32, rnd64.
+  apply (round_round_div_FLT radix2 (-149) 24 (-1074) 53).
+  - exists 1; reflexivity.
+  - lia.
+  - lia.
+  - apply IZR_neq; lia.
+  - apply int_f32; lia.
+  - apply int_f32; lia.
+Qed.
+
+Lemma f64div_fl_bounds : forall c n, 0 <= c <= 2 ^ 24 -> 0 < n <= 2 ^ 24 ->
+  0 <= f64div_fl c n /\ (R64 (f64div_fl c n) <= bpow radix2 24)%R.
+Proof.
+  intros c n Hc Hn. split.
+  - apply (fdiv_ge_zero 53 1024 eq_refl eq_refl H3b); lia.
+  - rewrite f64div_fl_correct by lia. apply (rnd_le_fmt 53 1024 eq_refl).
+    + apply generic_format_bpow. unfold SpecFloat.fexp, SpecFloat.emin. lia.
+    + apply Rle_trans with (IZR c).
+      * apply Rdiv_le_l; [apply IZR_lt; lia|]. rewrite <- mult_IZR. apply IZR_le. nia.
+      * change (bpow radix2 24) with (IZR (2 ^ 24)). apply IZR_le. lia.
+Qed.
+
+(* the float32 frequency of a count and the float32 image of the float64 occurrence bound coincide *)
+Lemma equal_bound_key : forall c n, 0 <= c <= 2 ^ 24 -> 0 < n <= 2 ^ 24 ->
+  f64to32_fl (f64div_fl c n) = f32div_fl c n.
+Proof.
+  intros c n Hc Hn. apply R32_inj.
+  destruct (f64div_fl_bounds c n Hc Hn) as [H0 Hb].
+  rewrite f64to32_fl_correct by assumption.
+  rewrite f64div_fl_correct by lia. rewrite f32div_fl_correct by lia.
+  apply freq_double_round; lia.
+Qed.
+
+Lemma f64div_le_one : forall k n, 0 <= k <= n -> 0 < n <= 2 ^ 53 -> f64div_fl k n <= one64_fl.
+Proof.
+  intros k n Hk Hn. apply R64_le. rewrite R64_one.
+  exact (fdiv_le_one 53 1024 eq_refl eq_refl H3b k n Hk Hn).
+Qed.
+
+(* below 2^24 tokens, the float comparisons of an occurrence bound are the integer comparisons of the counts *)
+Lemma min_occ_decision : forall c k n, 0 < n < 2 ^ 24 -> 0 <= c <= n -> 0 <= k <= n ->
+  (f32div_fl c n <? f64to32_fl (f64div_fl k n)) = (c <? k).
+Proof.
+  intros c k n Hn Hc Hk. rewrite equal_bound_key by lia.
+  destruct (Z.ltb_spec c k) as [H|H].
+  - apply Z.ltb_lt. apply (fdiv_strict 24 128 eq_refl eq_refl H3a); lia.
+  - apply Z.ltb_ge. apply (fdiv_mono 24 128 eq_refl eq_refl H3a); lia.
+Qed.
+
+Lemma max_occ_decision : forall c k n, 0 < n < 2 ^ 24 -> 0 <= c <= n -> 0 <= k <= n ->
+  (f64to32_fl (Z.min one64_fl (f64div_fl k n)) <? f32div_fl c n) = (k <? c).
+Proof.
+  intros c k n Hn Hc Hk. rewrite Z.min_r by (apply f64div_le_one; lia).
+  rewrite equal_bound_key by lia.
+  destruct (Z.ltb_spec k c) as [H|H].
+  - apply Z.ltb_lt. apply (fdiv_strict 24 128 eq_refl eq_refl H3a); lia.
+  - apply Z.ltb_ge. apply (fdiv_mono 24 128 eq_refl eq_refl H3a); lia.
+Qed.
+
+Lemma min_dococc_decision : forall c k n, 0 < n < 2 ^ 53 -> 0 <= c <= n -> 0 <= k <= n ->
+  (f64div_fl c n <? f64div_fl k n) = (c <? k).
+Proof.
+  intros c k n Hn Hc Hk.
+  destruct (Z.ltb_spec c k) as [H|H].
+  - apply Z.ltb_lt. apply (fdiv_strict 53 1024 eq_refl eq_refl H3b); lia.
+  - apply Z.ltb_ge. apply (fdiv_mono 53 1024 eq_refl eq_refl H3b); lia.
+Qed.
+
+Lemma max_dococc_decision : forall c k n, 0 < n < 2 ^ 53 -> 0 <= c <= n -> 0 <= k <= n ->
+  (Z.min one64_fl (f64div_fl k n) <? f64div_fl c n) = (k <? c).
+Proof.
+  intros c k n Hn Hc Hk. rewrite Z.min_r by (apply f64div_le_one; lia).
+  destruct (Z.ltb_spec k c) as [H|H].
+  - apply Z.ltb_lt. apply (fdiv_strict 53 1024 eq_refl eq_refl H3b); lia.
+  - apply Z.ltb_ge. apply (fdiv_mono 53 1024 eq_refl eq_refl H3b); lia.
+Qed.
+
+(* the default bounds 0.0 and 1.0 never prune *)
+Lemma default_bounds_vacuous32 : forall c n, 0 < n <= 2 ^ 24 -> 0 <= c <= n ->
+  (f32div_fl c n <? f64to32_fl 0) = false /\ (f64to32_fl one64_fl <? f32div_fl c n) = false.
+Proof.
+  intros c n Hn Hc. split.
+  - apply Z.ltb_ge. change (f64to32_fl 0) with 0. apply (fdiv_ge_zero 24 128 eq_refl eq_refl H3a); lia.
+  - apply Z.ltb_ge. apply (valR_le 24 128). change (valR 24 128) with R32.
+    rewrite f64to32_fl_correct; [|unfold one64_fl; rewrite Z.shiftl_mul_pow2 by lia; lia|
+      rewrite R64_one; change 1%R with (bpow radix2 0); apply bpow_le; lia].
+    rewrite R64_one. unfold rnd32. change (FLT_exp (-149) 24) with (SpecFloat.fexp 24 128).
+    rewrite (rnd_id 24 128) by (apply (one_format 24 128 eq_refl H3a)).
+    exact (fdiv_le_one 24 128 eq_refl eq_refl H3a c n Hc Hn).
+Qed.
+
+Lemma default_bounds_vacuous64 : forall c n, 0 < n <= 2 ^ 53 -> 0 <= c <= n ->
+  (f64div_fl c n <? 0) = false /\ (one64_fl <? f64div_fl c n) = false.
+Proof.
+  intros c n Hn Hc. split.
+  - apply Z.ltb_ge. apply (fdiv_ge_zero 53 1024 eq_refl eq_refl H3b); lia.
+  - apply Z.ltb_ge. apply f64div_le_one; lia.
+Qed.
+
+(* at 2^24 + 1 tokens a token occurring exactly max_occurrences = 1 times is above the bound *)
+Lemma equal_bound_fails_above : (f64to32_fl (Z.min one64_fl (f64div_fl 1 (2 ^ 24 + 1))) <? f32div_fl 1 (2 ^ 24 + 1)) = true.
+Proof. vm_compute. reflexivity. Qed.
